@@ -642,7 +642,7 @@ func blockDead(b *ssa.BasicBlock) bool {
 		if !ok || len(d.Succs) != 2 || d.Succs[0] == d.Succs[1] {
 			continue
 		}
-		k, isC := constBool(ifi.Cond)
+		k, isC := staticCond(ifi.Cond)
 		if !isC {
 			continue
 		}
@@ -870,4 +870,49 @@ func dominatingFactsPlain(_ *ssa.BasicBlock, b *ssa.BasicBlock) []EdgeFact {
 		}
 	}
 	return out
+}
+
+// staticCond evaluates a branch condition that is fixed by constants: a
+// boolean constant, a comparison of two nil constants (a nil argument bound to
+// a parameter of an inlined helper), or of two integer constants.
+func staticCond(v ssa.Value) (bool, bool) {
+	if k, ok := constBool(v); ok {
+		return k, true
+	}
+	if u, ok := v.(*ssa.UnOp); ok && u.Op == token.NOT {
+		if k, ok := staticCond(u.X); ok {
+			return !k, true
+		}
+	}
+	bo, ok := v.(*ssa.BinOp)
+	if !ok {
+		return false, false
+	}
+	if isNilConst(bo.X) && isNilConst(bo.Y) {
+		switch bo.Op {
+		case token.EQL:
+			return true, true
+		case token.NEQ:
+			return false, true
+		}
+	}
+	x, okx := constInt(bo.X)
+	y, oky := constInt(bo.Y)
+	if okx && oky {
+		switch bo.Op {
+		case token.EQL:
+			return x == y, true
+		case token.NEQ:
+			return x != y, true
+		case token.LSS:
+			return x < y, true
+		case token.LEQ:
+			return x <= y, true
+		case token.GTR:
+			return x > y, true
+		case token.GEQ:
+			return x >= y, true
+		}
+	}
+	return false, false
 }
